@@ -124,13 +124,26 @@ Section WithHash.
   Hypothesis H_ok : forall x, bytes_ok (H x) /\ length (H x) = 32%nat.
   Variable coll : list entry -> list (key * N).
 
-  Lemma gc_pass_mono d d' t : disk_le d d' -> gc_pass H coll d t -> gc_pass H coll d' t.
-  Proof. intros Hle Hp G. apply (verify_gc_mono H coll d d'); [assumption|now apply Hp]. Qed.
+  Lemma verify_ssts_mono d d' l : disk_le d d' -> verify_ssts H d l = Ok tt -> verify_ssts H d' l = Ok tt.
+  Proof.
+    intros Hle. induction l as [|x l IH]; cbn [verify_ssts]; [tauto|].
+    destruct (lookup d x) as [es|] eqn:E; [|discriminate]. rewrite (Hle x es E).
+    destruct (state_eqb _ x); [exact IH|discriminate].
+  Qed.
 
-  Lemma gc_pass_no_rms d t : trms t = [] -> gc_pass H coll d t.
+  Lemma files_pass_mono d d' t : disk_le d d' -> files_pass H coll d t -> files_pass H coll d' t.
+  Proof.
+    intros Hle [Hs Hp]. split; [now apply (verify_ssts_mono d d')|].
+    intros G. apply (verify_gc_mono H coll d d'); [assumption|now apply Hp].
+  Qed.
+
+  Definition gc_part (d : list bfile) (t : txn) : Prop :=
+    gc_needed t = true -> verify_gc H coll d (trms t) (tadds t) (tD t) = Ok tt.
+
+  Lemma gc_part_no_rms d t : trms t = [] -> gc_part d t.
   Proof. intros E G. unfold gc_needed in G. rewrite E in G. apply andb_prop in G. destruct G as [_ G]. discriminate. Qed.
 
-  Lemma gc_pass_no_discard d t : tD t = zero -> gc_pass H coll d t.
+  Lemma gc_part_no_discard d t : tD t = zero -> gc_part d t.
   Proof. intros E G. unfold gc_needed in G. rewrite E, state_eqb_refl in G. discriminate. Qed.
 
   Definition file_ok (f : bfile) : Prop := bsum f = builder_setsum H (bents f).
@@ -139,6 +152,16 @@ Section WithHash.
   Proof.
     intros Ht. unfold names. apply Forall_forall. intros x Hx. apply in_map_iff in Hx. destruct Hx as (f & <- & Hf).
     rewrite Forall_forall in Ht. rewrite (Ht f Hf). now apply builder_setsum_canonical.
+  Qed.
+
+  (* the ssts named are files of a tree that the disk holds under their names *)
+  Lemma verify_ssts_tree d t l : (forall f, In f t -> lookup d (bsum f) = Some (bents f)) -> Forall file_ok t ->
+    (forall x, In x l -> In x (names t)) -> verify_ssts H d l = Ok tt.
+  Proof.
+    intros Hd Hf. induction l as [|x l IH]; intros Hin; cbn [verify_ssts]; [reflexivity|].
+    destruct (proj1 (in_map_iff _ _ _) (Hin x (or_introl eq_refl))) as (f & <- & Hft).
+    rewrite (Hd f Hft). rewrite Forall_forall in Hf. rewrite <- (Hf f Hft), state_eqb_refl.
+    apply IH. intros y Hy. apply Hin. now right.
   Qed.
 
   Lemma build_file_ok es : file_ok (build_file H es).
@@ -172,7 +195,7 @@ Section WithHash.
     inv_canon : Forall (Forall txn_canon) (mfragments (bman b));
     inv_log : log_ok (bman b);
     inv_disk : forall f, In f (btree b) -> lookup (bdisk b) (bsum f) = Some (bents f);
-    inv_gc : Forall (Forall (gc_pass H coll (bdisk b))) (mfragments (bman b))
+    inv_files_pass : Forall (Forall (files_pass H coll (bdisk b))) (mfragments (bman b))
   }.
 
   Lemma inv_strs_canonical b : Inv b -> Forall canonical (mstrs (bman b)).
@@ -193,7 +216,7 @@ Section WithHash.
     - unfold mfragments. cbn. repeat constructor; apply zero_canonical.
     - unfold log_ok, mfragments. cbn. repeat split; discriminate.
     - intros f [].
-    - unfold mfragments. cbn. repeat constructor; now apply gc_pass_no_rms.
+    - unfold mfragments. cbn. repeat constructor; intros G; discriminate G.
   Qed.
 
   (* ---- the generic commit: an edit whose adds/removes are exactly the change of the tree ---- *)
@@ -206,7 +229,7 @@ Section WithHash.
     (forall x, In x (names tree') <-> In x (tadds t) \/ (In x (names (btree b)) /\ ~ In x (trms t))) ->
     add_state (compute_setsum tree') (sum (trms t)) = add_state (compute_setsum (btree b)) (sum (tadds t)) ->
     (forall f, In f tree' -> lookup disk' (bsum f) = Some (bents f)) ->
-    disk_le (bdisk b) disk' -> gc_pass H coll disk' t ->
+    disk_le (bdisk b) disk' -> gc_part disk' t ->
     state_eqb (compute_setsum tree') (tO t) = true /\ Inv (mkBS tree' (apply_edit (bman b) t roll) disk').
   Proof.
     intros I HI Hsub HD Ha Hr Hdisc Hfiles Hnd Hnames Hcons Hdisk Hle Hgc.
@@ -230,10 +253,15 @@ Section WithHash.
     - apply apply_edit_log_ok; [apply (inv_log b I)|].
       unfold txn_ok. rewrite (inv_O b I). tauto.
     - assumption.
-    - apply apply_edit_forall; [|assumption|intros m'; now apply gc_pass_no_rms].
-      pose proof (inv_gc b I) as Hg. apply Forall_forall. intros fr Hfr. rewrite Forall_forall in Hg.
-      specialize (Hg fr Hfr). apply Forall_forall. intros t0 Ht0. rewrite Forall_forall in Hg.
-      apply (gc_pass_mono (bdisk b)); [assumption|now apply Hg].
+    - assert (Hadd : forall l L, (forall x, In x l -> In x (names tree')) -> gc_part disk' (mkT (tI t) (tO t) (tD t) l [] L) ->
+                     files_pass H coll disk' (mkT (tI t) (tO t) (tD t) l [] L)).
+      { intros l L Hl Hg. split; [|exact Hg]. cbn [tadds]. now apply (verify_ssts_tree disk' tree'). }
+      apply apply_edit_forall.
+      + pose proof (inv_files_pass b I) as Hg. apply Forall_forall. intros fr Hfr. rewrite Forall_forall in Hg.
+        specialize (Hg fr Hfr). apply Forall_forall. intros t0 Ht0. rewrite Forall_forall in Hg.
+        apply (files_pass_mono (bdisk b)); [assumption|now apply Hg].
+      + split; [|exact Hgc]. apply (verify_ssts_tree disk' tree'); try assumption. intros x Hx. apply Hnames. now left.
+      + apply Hadd; [intros x Hx; now apply Hnew|now apply gc_part_no_rms].
   Qed.
 
   (* ---- ingest ---- *)
@@ -266,7 +294,7 @@ Section WithHash.
       + apply lookup_add_disk_old. now apply (inv_disk b I).
       + now apply lookup_add_disk_new.
     - apply disk_le_add_disk.
-    - now apply gc_pass_no_rms.
+    - now apply gc_part_no_rms.
     - unfold t in *. cbn [tO] in Eeq. rewrite Eeq. eauto.
   Qed.
 
@@ -500,7 +528,7 @@ Section WithHash.
     - apply (inv_canon b I).
     - apply (inv_log b I).
     - intros g Hg. apply (inv_disk b I). apply (Permutation_in _ (Permutation_sym Hperm) Hg).
-    - apply (inv_gc b I).
+    - apply (inv_files_pass b I).
   Qed.
 
   (* ---- flush ---- *)
@@ -527,7 +555,9 @@ Section WithHash.
       rewrite (inv_O b I). apply compute_setsum_canonical, (inv_files b I).
     - apply rollover_log_ok, (inv_log b I).
     - apply (inv_disk b I).
-    - apply rollover_forall; [apply (inv_gc b I)|now apply gc_pass_no_rms].
+    - apply rollover_forall; [apply (inv_files_pass b I)|]. split; [|now apply gc_part_no_rms].
+      unfold to_edit. cbn [tadds]. apply (verify_ssts_tree (bdisk b) (btree b)); [apply (inv_disk b I)|apply (inv_files b I)|].
+      intros x Hx. now apply (inv_strs b I).
   Qed.
 
   Lemma reopen_inv b log roll : Inv b -> accepted H coll b (BReopen log roll) = true ->
@@ -567,10 +597,70 @@ Section WithHash.
       + apply lookup_add_disk_old. now apply (inv_disk b I).
       + now apply lookup_add_disk_new.
     - apply disk_le_add_disk.
-    - now apply gc_pass_no_rms.
+    - now apply gc_part_no_rms.
     - unfold b1, t in *. cbn [bman tO] in *.
       destruct (apply_edit_fields (rollover (bman b)) (mkT (mO (bman b)) out disc [bsum f] [] None) roll) as (_ & _ & EO & _).
       cbn [tO] in EO. first [rewrite EO | unfold rollover in *; rewrite EO]. rewrite Eeq. eexists. split; [reflexivity|exact I'].
+  Qed.
+
+  (* ---- reopen with any number of logs ---- *)
+  Lemma recover_one_inv b log roll : Inv b ->
+    (match log with
+     | [] => True
+     | _ => existsb (state_eqb (bsum (build_file H (sort_entries log)))) (mstrs (bman b)) = true \/
+            outs_ok b [] [build_file H (sort_entries log)] = true
+     end) ->
+    exists b', recover_one H b log roll = Ok b' /\ Inv b'.
+  Proof.
+    intros I Hacc. unfold recover_one. destruct log as [|e log]; [eauto|].
+    set (f := build_file H (sort_entries (e :: log))) in *.
+    destruct (existsb (state_eqb (bsum f)) (mstrs (bman b))) eqn:Ex; [eauto|].
+    destruct Hacc as [Hacc|Hacc]; [discriminate|].
+    destruct (outs_ok_spec _ _ _ Hacc) as (Hf & _ & _). inversion Hf as [|? ? [_ Hag] _]; subst.
+    assert (Hs : canonical (bsum f)) by (cbn; now apply builder_setsum_canonical).
+    destruct (sub_r_ok zero (bsum f) zero_canonical Hs) as (disc & Ed & Hd & Hdadd).
+    rewrite Ed. cbn [bind].
+    assert (HT : canonical (mO (bman b))) by (rewrite (inv_O b I); apply compute_setsum_canonical, (inv_files b I)).
+    destruct (sub_r_ok (mO (bman b)) disc HT Hd) as (out & Eout & Hout & Houtadd).
+    rewrite Eout. cbn [bind].
+    set (t := mkT (mO (bman b)) out disc [bsum f] [] None).
+    apply existsb_state_notIn in Ex.
+    destruct (commit_inv b t (btree b ++ [f]) (add_disk (bdisk b) f) roll I) as [Eeq I']; unfold t; cbn [tI tO tD tadds trms btree]; try assumption.
+    - apply (inv_O b I).
+    - repeat constructor; assumption.
+    - constructor.
+    - unfold disc_ok. cbn [tD tadds trms]. now rewrite sum_single, sum_nil.
+    - apply Forall_app. split; [apply (inv_files b I)|repeat constructor].
+    - unfold names. rewrite map_app. apply nodup_app; [apply (inv_nodup b I)|repeat constructor; intros []|].
+      intros x Hx [<-|[]]. apply Ex. now apply (inv_strs b I).
+    - intros x. unfold names. rewrite map_app, in_app_iff. cbn [map In]. tauto.
+    - rewrite sum_nil, sum_single by assumption. rewrite compute_setsum_app by (try apply (inv_files b I); repeat constructor).
+      unfold compute_setsum at 2. cbn [map]. rewrite sum_single by assumption.
+      apply add_zero_r. apply add_canonical; [apply compute_setsum_canonical, (inv_files b I)|assumption].
+    - intros g Hg. apply in_app_or in Hg. destruct Hg as [Hg|[<-|[]]].
+      + apply lookup_add_disk_old. now apply (inv_disk b I).
+      + now apply lookup_add_disk_new.
+    - apply disk_le_add_disk.
+    - now apply gc_part_no_rms.
+    - eexists. split; [reflexivity|exact I'].
+  Qed.
+
+  Lemma recover_inv logs : forall b, Inv b -> recover_accepted H b logs = true ->
+    exists b', recover H b logs = Ok b' /\ Inv b'.
+  Proof.
+    induction logs as [|[log roll] logs IH]; intros b I Hacc; cbn [recover]; [eauto|].
+    cbn [recover_accepted] in Hacc. apply andb_prop in Hacc. destruct Hacc as [Ha Hr].
+    destruct (recover_one_inv b log roll I) as (b1 & E1 & I1).
+    { destruct log as [|e log]; [exact Logic.I|]. apply orb_prop in Ha. exact Ha. }
+    rewrite E1 in *. cbn [bind]. now apply IH.
+  Qed.
+
+  Lemma reopen_logs_inv b logs : Inv b -> accepted H coll b (BReopenLogs logs) = true ->
+    exists b', reopen_logs H b logs = Ok b' /\ Inv b'.
+  Proof.
+    intros I Hacc. cbn [accepted] in Hacc. unfold reopen_logs.
+    destruct (recover_inv logs _ (rollover_inv b I) Hacc) as (b' & E & I'). rewrite E. cbn [bind].
+    rewrite (inv_O b' I'), state_eqb_refl. eauto.
   Qed.
 
   (* ---- every step, every history ---- *)
@@ -579,7 +669,7 @@ Section WithHash.
   Lemma bstep_inv b o : Inv b -> accepted H coll b o = true ->
     (exists b', bstep H coll b o = Ok b' /\ Inv b') \/ (exists c, bstep H coll b o = Err c /\ benign c).
   Proof.
-    intros I Hacc. destruct o as [mem l roll|ents roll|inputs lens roll|inputs lens roll|input|log roll]; cbn [bstep].
+    intros I Hacc. destruct o as [mem l roll|ents roll|inputs lens roll|inputs lens roll|input|log roll|logs]; cbn [bstep].
     - destruct (flush_inv b mem l roll I Hacc) as [?|E]; [now left|right; exists CDuplicate; unfold benign; tauto].
     - cbn [accepted] in Hacc. destruct (outs_ok_spec _ _ _ Hacc) as (Hf & _ & _). inversion Hf as [|? ? [_ Hag] _]; subst.
       destruct (ingest_inv b (build_file H ents) None roll I (build_file_ok ents) Hag) as [?|E]; [now left|right; exists CDuplicate; unfold benign; tauto].
@@ -587,6 +677,7 @@ Section WithHash.
     - destruct (gc_inv b inputs lens roll I Hacc) as [?|[E|E]]; [now left|right; exists CNotFound; unfold benign; tauto|right; exists CGcLogic; unfold benign; tauto].
     - destruct (move_inv b input I) as [?|E]; [now left|right; exists CNotFound; unfold benign; tauto].
     - left. now apply reopen_inv.
+    - left. now apply reopen_logs_inv.
   Qed.
 
   Lemma brun_inv ops : forall b, Inv b -> all_accepted H coll b ops = true ->
